@@ -119,7 +119,9 @@ def has_future(f):
 
 
 def num(c):
-    # constants as rtamt literals (non-negative integers only)
+    # constants as rtamt literals (non-negative integers; +inf as a literal beyond the largest float)
+    if c == math.inf:
+        return '1e999'
     return str(int(c))
 
 
